@@ -11,6 +11,7 @@ CONSTANTS
   Names = {}
   Edits = {}
   ExtraBits = {}
+  Exporting = FALSE
   MaxOps = 0
 VIEW TraceView
 CONSTRAINT HighWater
